@@ -331,7 +331,8 @@ def findGroup (dec : Decisions) (g : Nat) : Option GroupDec := dec.groups.find? 
 * pieces and groups agree: piece `p` with `(group, slot)` is member number `slot` of that group,
   and every member of a group is a piece that says so (hence: all members of a raw group are raw,
   every LZ group has exactly one reference — its member 0);
-* fewer than `2^31 - 1` pieces (so every in-group id is below `i32::MAX`, C03). -/
+* fewer than `2^31 - 1` pieces, and fewer than `2^31 - 1` members in every group (so every
+  in-group id — at most the number of members — is below `i32::MAX`, C03). -/
 def decisionsOK (cfg : Cfg) (inp : List Sample) (dec : Decisions) : Bool :=
   decide (1 ≤ cfg.k) && decide (cfg.k < 2 ^ 32) && decide (cfg.minMatch < 2 ^ 32) &&
   decide (cfg.segSize < 2 ^ 32) && decide (cfg.segSize + cfg.k ≤ 2 ^ 31) &&
@@ -343,6 +344,7 @@ def decisionsOK (cfg : Cfg) (inp : List Sample) (dec : Decisions) : Bool :=
       decide (ds.length < 2 ^ 32) && tilesB cfg.k c.data.length (ds.map (·.len)))) &&
   decide ((dec.groups.map (·.id)).Nodup) &&
   dec.groups.all (fun G => decide (G.id < 2 ^ 32) && decide (G.members ≠ []) &&
+    decide (G.members.length + 1 < 2 ^ 31) &&
     (List.zipIdx G.members).all (fun (r, j) =>
       match lookup3 dec.pieces r with
       | some d => decide (d.group = G.id) && decide (d.slot = j)
